@@ -22,7 +22,7 @@ func TestMain(m *testing.M) {
 
 func TestReplay(t *testing.T) { props.ReplayMain(t, *replayFile) }
 
-var faultKindsSSH = []string{"error", "garbage", "badecho", "close", "stall"}
+var faultKindsSSH = []string{"error", "garbage", "warnerror", "badecho", "close", "stall"}
 var faultKindsHTTP = []string{"http500", "http403", "malformed", "status-error", "close", "stall"}
 
 func drawFault(rt *rapid.T, fam string, maxPos int, allowStall bool) FaultSpec {
@@ -104,7 +104,7 @@ func TestC06(t *testing.T) {
 	})
 }
 
-const ruleC09 = "generated scenario (family, device, target, front-end in {drc approve, drc -C, do-approve approve, do-approve compare}); a clean run fixes the number n of dialogue steps; then one fault (error text, unexpected output, garbled echo, connection close, stall, HTTP 5xx/4xx, malformed reply, status=error, failed commit job, non-zero exit status) at a drawn position k<n or, in three of four cases, concentrated on a change step, on the first or second half of a two-command packet, or on the save step; " +
+const ruleC09 = "generated scenario (family, device, target, front-end in {drc approve, drc -C, do-approve approve, do-approve compare}); a clean run fixes the number n of dialogue steps; then one fault (error text, unexpected output, a tolerated warning followed by error text, garbled echo, connection close, stall, HTTP 5xx/4xx, malformed reply, status=error, failed commit job, non-zero exit status) at a drawn position k<n or, in three of four cases, concentrated on a change step, on the first or second half of a two-command packet, or on the save step; " +
 	"non-trivial = the fault lands on a step the clean run reaches, on a step whose answer must be verified, and the scenario has >= 2 change commands; distinct = hash of scenario+kind+position"
 
 func TestC09(t *testing.T) {
